@@ -77,7 +77,7 @@ def _script_ob(d, k, first, names, T, func='script', oid=None, fixed=None, findi
 
 def obligations(tier):
     quick = tier == 'quick'
-    T = float(os.environ.get('VERIF_XH_TIMEOUT') or (240 if quick else 1500))
+    T = float(os.environ.get('VERIF_XH_TIMEOUT') or (300 if quick else 1800))
     names = 3
     obs = []
     # Part A: state classes, sequences of API calls from a fresh state
@@ -86,12 +86,13 @@ def obligations(tier):
         for first in range(0, 6):
             obs.append(_api_ob(k, first, names, T))
     # Part B: compile layer + server protocol + faults
-    dmax = 2 if quick else 3
-    kq = 2 if quick else 3
-    for d in range(0, dmax + 1):
-        for k in range(1, kq + 1):
-            for first in range(0, 9):
-                obs.append(_script_ob(d, k, first, names, T))
+    if quick:
+        combos = [(0, 1), (0, 2), (1, 1)]
+    else:
+        combos = [(d, k) for d in range(0, 3) for k in range(1, 4)]
+    for d, k in combos:
+        for first in range(0, 9):
+            obs.append(_script_ob(d, k, first, names, T))
     # known finding F11: un-narrowed instance restricted to witness histories
     # SAVEPOINT a; [change]; SAVEPOINT a; RELEASE a; ROLLBACK TO a; <any statement>
     obs.append(_script_ob(2, 3, 4, names, T, func='script_raw', oid='script.F11', finding='F11',
@@ -120,8 +121,9 @@ def run(tier, only=''):
                      'PostgreSQL-style transaction model, and every statement must be compiled against the state the '
                      'model exposes at that point.'),
         bounds={'part A': 'sequences of <= %d API operations from a fresh state' % (3 if tier == 'quick' else 4),
-                'part B': 'START + recipe prefix of <= %d savepoints (optional alias/config/DDL change before each) '
-                          '+ <= %d free statements with backend-failure flags' % ((2, 2) if tier == 'quick' else (3, 3)),
+                'part B': ('START + (recipe prefix, free statements) in {(0,1),(0,2),(1,1)}' if tier == 'quick' else
+                           'START + recipe prefix of <= 2 savepoints + <= 3 free statements') +
+                          ' (optional alias/config/DDL change before each prefix savepoint; backend-failure flags on free statements)',
                 'savepoint names': 3, 'id counter start': 1000},
         stubs=['dbstate.time (monotonic_ns returns the harness-chosen symbolic counter start)',
                'DDL and CONFIGURE SESSION statements are represented by the state-mutating call their compilation '
